@@ -45,6 +45,10 @@ class CtorHooks:
             return RF.atom(("fr", Sym(("call", fname.replace("amin", "min").replace("amax", "max"), (vkey(args[0]),)))))
         if fname == "warn":
             return Sym(("warn",))
+        from .effects import quantifier_value
+        q = quantifier_value(sm, node, fname, st)
+        if q is not None:
+            return q
         return None
 
     def root(self, v):
@@ -112,7 +116,12 @@ class CtorHooks:
         return None
 
     def loop(self, sm, node, st):
-        """the table flattening loop is recorded as an idiom instance, its results become opaque flats"""
+        """the table flattening loop is recorded as an idiom instance, its results become opaque flats; any other loop
+        (a validation loop over list items, say) is read like everywhere else: one symbolic iteration"""
+        it_txt = ast.unparse(node.iter).replace('"', "'") if isinstance(node, ast.For) else ""
+        if not it_txt.endswith("['vi']"):
+            from .effects import EditHooks
+            return EditHooks.loop(self, sm, node, st)
         info = flatten_idiom(node)
         if "table" in info:
             info["root"] = self.root(st.env.get(info["table"]))
@@ -153,9 +162,11 @@ def flatten_idiom(loop):
                 return {"deviant": "unrecognised statement in the flattening loop: %s" % ast.unparse(s)}
         else:
             return {"deviant": "unrecognised statement in the flattening loop: %s" % ast.unparse(s)}
-    for k in ("cur", "volt", "z"):
+    for k in ("cur", "volt"):
         if k not in out:
             return {"deviant": "flattening loop lacks the %s part" % k}
+    if "z" not in out:
+        out["z"], out["zkey"] = None, None      # the (loop-invariant) value list may be built next to the loop
     return out
 
 
